@@ -5,6 +5,10 @@
 //   h_vector segidx <trace>                                          index -> (segment, offset) arithmetic for indices 2^k + r, k <= 62
 #include "oneapi/tbb/concurrent_vector.h"
 #include "vh.h"
+#include <sys/mman.h>
+#include <sys/wait.h>
+#include <signal.h>
+#include <unistd.h>
 #include <sys/wait.h>
 #include <unistd.h>
 using namespace cosched;
@@ -49,26 +53,42 @@ int main(int argc, char** argv) {
     if (argc < 3) return 2;
     std::string mode = argv[1]; vh::Timer tm; long paths = 0, steps = 0, stuck = 0, crashes = 0;
     if (mode == "random") {
-        int n = atoi(argv[2]); unsigned long seed0 = strtoul(argv[3], nullptr, 10); TR.open(argv[4]);
+        // runs are executed in forked chunks: a change that corrupts the vector crashes (or hangs) a child, which becomes a Crash / Stuck event of that execution
+        int n = atoi(argv[2]); unsigned long seed0 = strtoul(argv[3], nullptr, 10);
         for (int i = 5; i < argc; i++) PROG.push_back(vh::split(argv[i], ','));
         int N = (int)PROG.size(); static const int dens[8] = {1, 3, 10, 40, -1, -2, -3, -5};
-        for (int r = 0; r < n && stuck < 10; r++) {
-            TR.begin_exec();
-            V* v = new V; std::vector<std::vector<Sample>> samples(N);
-            Sched S; S.stall_limit = 30000; S.log_schedule = true; focus_only(false);
-            // the words of the growth protocol: PCT places its change points right after an access to one of them with probability 1/3
-            untrack_all(); track(&v->my_segment_table); track(&v->my_first_block); track(&v->my_size);
-            S.spawn(N, [&](int t) { body(*v, t, samples[t]); });
-            int rc = S.run_random(seed0 + r, 3000000, dens[r % 8]); ++paths; steps += S.steps;
-            TR.sched(S.sched_log);
-            if (rc != RC_OK) { ++stuck; TR.emit("{\"e\":\"Stuck\",\"rc\":\"%s\"}", rc_name(rc).c_str()); S.join_all(); continue; }
-            S.join_all();
-            int moved = 0; for (auto& ss : samples) for (auto& s : ss) if (&(*v)[s.idx] != s.addr) moved = 1;
-            std::ostringstream o; for (size_t i = 0; i < v->size(); i++) o << (i ? "," : "") << (*v)[i].v;
-            TR.emit("{\"e\":\"Final\",\"size\":%zu,\"vals\":[%s],\"moved\":%d}", v->size(), o.str().c_str(), moved);
-            delete v;
+        struct Sh { long paths, steps, stuck; }; Sh* sh = (Sh*)mmap(nullptr, sizeof(Sh), PROT_READ | PROT_WRITE, MAP_SHARED | MAP_ANONYMOUS, -1, 0); memset(sh, 0, sizeof *sh);
+        FILE* out = fopen(argv[4], "w"); bool first = true; std::string tmp = std::string(argv[4]) + ".child";
+        for (int c0 = 0; c0 < n && sh->stuck < 10 && crashes < 4; c0 += 50) {
+            fflush(nullptr); pid_t pid = fork();
+            if (pid == 0) {
+                alarm(600); TR.open(tmp.c_str()); setvbuf(TR.f, nullptr, _IOLBF, 0);
+                for (int r = c0; r < c0 + 50 && r < n && sh->stuck < 10; r++) {
+                    TR.begin_exec();
+                    V* v = new V; std::vector<std::vector<Sample>> samples(N);
+                    Sched S; S.stall_limit = 30000; S.log_schedule = true; focus_only(false);
+                    // the words of the growth protocol: PCT places its change points right after an access to one of them with probability 1/3
+                    untrack_all(); track(&v->my_segment_table); track(&v->my_first_block); track(&v->my_size);
+                    S.spawn(N, [&](int t) { body(*v, t, samples[t]); });
+                    int rc = S.run_random(seed0 + r, 3000000, dens[r % 8]); ++sh->paths; sh->steps += S.steps;
+                    TR.sched(S.sched_log);
+                    if (rc != RC_OK) { ++sh->stuck; TR.emit("{\"e\":\"Stuck\",\"rc\":\"%s\"}", rc_name(rc).c_str()); S.join_all(); continue; }
+                    S.join_all();
+                    int moved = 0; for (auto& ss : samples) for (auto& s : ss) if (&(*v)[s.idx] != s.addr) moved = 1;
+                    std::ostringstream o; for (size_t i = 0; i < v->size(); i++) o << (i ? "," : "") << (*v)[i].v;
+                    TR.emit("{\"e\":\"Final\",\"size\":%zu,\"vals\":[%s],\"moved\":%d}", v->size(), o.str().c_str(), moved);
+                    delete v;
+                }
+                TR.close(); _exit(0);
+            }
+            int status = 0; waitpid(pid, &status, 0);
+            std::ifstream in(tmp); std::string line; bool any = false;
+            while (std::getline(in, line)) { if (line.empty() || line.back() != '}') continue;
+                if (!any && !first && line.find("\"Reset\"") == std::string::npos) fputs("{\"e\":\"Reset\"}\n", out); any = true; first = false; fputs(line.c_str(), out); fputc('\n', out); }
+            if (WIFSIGNALED(status)) { ++crashes; fprintf(out, WTERMSIG(status) == SIGALRM ? "{\"e\":\"Stuck\",\"rc\":\"watchdog\"}\n" : "{\"e\":\"Crash\",\"sig\":%d}\n", WTERMSIG(status)); }
+            unlink(tmp.c_str());
         }
-        TR.close();
+        fclose(out); paths = sh->paths; steps = sh->steps; stuck = sh->stuck;
     } else if (mode == "fault") {
         std::string kind = argv[2]; int kmax = atoi(argv[3]); FILE* out = fopen(argv[4], "w"); bool first = true;
         PROG.push_back(vh::split(argv[5], ','));
